@@ -143,7 +143,7 @@ def replay(scn):
         codec = A.LabelCodec(mixed=True)
         kinds = ["i"] * len(a_abs["dims"])
         kinds[d] = kind
-        for form in (0, 1):
+        for form in (0, 1, 2):
             a = A.gamma(a_abs, codec, kinds)
             before = A.snapshot(a)
             newx = codec.enc_seq(i["new"], "f")
@@ -152,7 +152,7 @@ def replay(scn):
                 kw.update(left=left, right=right)
             if i["issorted"]:
                 kw["issorted"] = True
-            ax = a_abs["dims"][d] if form == 0 else d
+            ax = a_abs["dims"][d] if form == 0 else (d if form == 1 else d - a.ndim)
             calls += 1
             what = None
             try:
